@@ -137,6 +137,15 @@ def observe(base, calls, preds, lazy_calls=None, machine=True):
     return out
 
 
+def compare(chk, sub, inp, model_out, impl_out):
+    """one model-vs-implementation comparison of observable `sub` (counted per observable, not per generator)"""
+    m = chk.mech.setdefault(sub, {"cases": 0, "disagreements": 0, "nontrivial": 0})
+    m["cases"] += 1
+    m["nontrivial"] += 1
+    if model_out != impl_out:
+        chk.disagreement(sub, inp, model_out, impl_out)
+
+
 # ---- one document against many programs ------------------------------------------------------------------------------
 
 class Case:
@@ -210,9 +219,9 @@ def judge(chk, case: Case, programs, mechanism, reg, variants, machine=True):
         key = {"doc": case.name, "program": w}
         replay = {"doc": case.raw, "doc_name": case.name, "program": p}
         chk.feature(f"{mechanism}:build={impl['build']}")
+        compare(chk, "_add_filter", replay, m["build"], impl["build"])
         if impl["build"] != m["build"]:
             chk.case(mechanism, key=key, nontrivial=True)
-            chk.disagreement(f"{mechanism}:_add_filter", replay, m["build"], impl["build"])
             continue
         if impl["build"] != "ok":
             chk.case(mechanism, key=key, nontrivial=True, sample={"program": w, "impl": impl})
@@ -234,22 +243,16 @@ def judge(chk, case: Case, programs, mechanism, reg, variants, machine=True):
             if c["dep"]:
                 chk.feature("filter:exclude:deprecated=True")
         # ---- correspondence -------------------------------------------------------------------------------------------
-        if impl["all"] != m["all"]:
-            chk.disagreement(f"{mechanism}:get_all_operations", replay, m["all"], impl["all"])
-        if impl["parametrize"] != m["all"]:
-            chk.disagreement(f"{mechanism}:parametrize", replay, m["all"], impl["parametrize"])
-        if impl["iter"] != m["iter"]:
-            chk.disagreement(f"{mechanism}:_operation_iter", replay, m["iter"], impl["iter"])
-        if impl["stat"] != m[f"stat_{sv}"]:
-            chk.disagreement(f"{mechanism}:_measure_statistic", replay, m[f"stat_{sv}"], impl["stat"])
+        compare(chk, "get_all_operations", replay, m["all"], impl["all"])
+        compare(chk, "parametrize", replay, m["all"], impl["parametrize"])
+        compare(chk, "_operation_iter", replay, m["iter"], impl["iter"])
+        compare(chk, "_measure_statistic", replay, m[f"stat_{sv}"], impl["stat"])
         if machine:
             mt = None if m["trans"] is None else sorted(m["trans"])
             it = None if impl["trans"] is None else sorted(impl["trans"])
-            if mt != it:
-                chk.disagreement(f"{mechanism}:collect_transitions", replay, mt, it)
+            compare(chk, "collect_transitions", replay, mt, it)
             mr = None if m["rules"] is None else normalize_rule_names(m["rules"])
-            if mr != impl["rules"]:
-                chk.disagreement(f"{mechanism}:state_machine_rules", replay, mr, impl["rules"])
+            compare(chk, "state_machine_rules", replay, mr, impl["rules"])
         # ---- replay: the specification judges what the implementation did -----------------------------------------
         if impl["all"] != expected:
             chk.violation("C07:get_all_operations:offered-differs-from-selection",
@@ -284,11 +287,9 @@ def judge(chk, case: Case, programs, mechanism, reg, variants, machine=True):
         if p.get("lazy") is not None:
             ml, il = m["lazy"], impl["lazy"]
             chk.feature(f"{mechanism}:lazy-build={il['build']}")
-            if ml["build"] != il["build"]:
-                chk.disagreement(f"{mechanism}:lazy:_add_filter", replay, ml["build"], il["build"])
-            elif il["build"] == "ok":
-                if il["labels"] != ml[lv]:
-                    chk.disagreement(f"{mechanism}:lazy.get_schema", replay, ml[lv], il["labels"])
+            compare(chk, "LazySchema:_add_filter", replay, ml["build"], il["build"])
+            if ml["build"] == il["build"] == "ok":
+                compare(chk, "lazy.get_schema", replay, ml[lv], il["labels"])
                 inc1, exc1 = G.program_conjs(p["calls"])
                 inc2, exc2 = G.program_conjs(p["lazy"])
                 lexp = [f["name"] for f in case.facts if G.oracle_selected(inc1 + inc2, exc1 + exc2, f)]
@@ -447,8 +448,8 @@ def cli_run(chk, case: Case, argsets, reg, variants):
         replay = {"doc": case.raw, "doc_name": case.name, "cli": a}
         chk.case("cli", key={"doc": case.name, "cli": w}, nontrivial=True, sample={"cli": a, "build": build})
         chk.feature(f"cli:build={build}")
+        compare(chk, "cli:FilterArguments.into", replay, m["build"], build)
         if build != m["build"]:
-            chk.disagreement("cli:FilterArguments.into", replay, m["build"], build)
             continue
         if build != "ok":
             continue
@@ -460,10 +461,8 @@ def cli_run(chk, case: Case, argsets, reg, variants):
         expected = [f["name"] for f in case.facts if G.oracle_selected(inc, exc, f)]
         if expected != m["spec"]:
             raise InfraError(f"Lean CLI specification and Python oracle disagree on {case.name} {a}: {m['spec']} vs {expected}")
-        if impl_all != m["all"]:
-            chk.disagreement("cli:get_all_operations", replay, m["all"], impl_all)
-        if impl_stat != m[f"stat_{sv}"]:
-            chk.disagreement("cli:_measure_statistic", replay, m[f"stat_{sv}"], impl_stat)
+        compare(chk, "cli:get_all_operations", replay, m["all"], impl_all)
+        compare(chk, "cli:_measure_statistic", replay, m[f"stat_{sv}"], impl_stat)
         if impl_all != expected:
             chk.violation("C07:cli:offered-differs-from-documented-option-meaning",
                           f"with options {a} the run offers {impl_all}; the documented meaning selects {expected}",
@@ -509,8 +508,8 @@ def graphql_run(chk, reg):
         schema, st = apply_calls(base, p["calls"], [])
         replay = {"graphql": GQL_SDL, "program": p}
         chk.case("graphql", key=w, nontrivial=st == "ok", sample={"program": w, "build": st})
+        compare(chk, "graphql:_add_filter", replay, m["build"], st)
         if st != m["build"]:
-            chk.disagreement("graphql:_add_filter", replay, m["build"], st)
             continue
         if st != "ok":
             continue
@@ -522,10 +521,8 @@ def graphql_run(chk, reg):
                                                                      "operation_id": None, "deprecated": False, "preds": []})]
         if expected != m["spec"]:
             raise InfraError(f"Lean GraphQL specification and Python oracle disagree on {w}")
-        if impl_all != m["all"]:
-            chk.disagreement("graphql:get_all_operations", replay, m["all"], impl_all)
-        if impl_stat != m["stat"]:
-            chk.disagreement("graphql:_measure_statistic", replay, m["stat"], impl_stat)
+        compare(chk, "graphql:get_all_operations", replay, m["all"], impl_all)
+        compare(chk, "graphql:_measure_statistic", replay, m["stat"], impl_stat)
         if impl_all != expected:
             chk.violation("C07:graphql:offered-differs-from-selection",
                           f"GraphQL schema offers {impl_all}; the name filters select {expected}",
@@ -543,8 +540,7 @@ def check_tables(chk):
 
     model = chk.driver().one("tables", None)["http_methods"]
     chk.case("tables", key="HTTP_METHODS", nontrivial=True, sample={"model": model})
-    if sorted(model) != sorted(HTTP_METHODS):
-        chk.disagreement("tables:HTTP_METHODS", "HTTP_METHODS", sorted(model), sorted(HTTP_METHODS))
+    compare(chk, "tables:HTTP_METHODS", "HTTP_METHODS", sorted(model), sorted(HTTP_METHODS))
     if sorted(HTTP_METHODS) != sorted(G.HTTP):
         chk.violation("C07:HTTP_METHODS:differs-from-openapi-operation-fields",
                       f"HTTP_METHODS = {sorted(HTTP_METHODS)} is not the set of Open API operation fields",
